@@ -63,9 +63,9 @@ CHECKS = {
    text="Keyring.tla transcribes parse_config/add_key line by line and is checked by TLC against the declarative contract KeyringContract for every token sequence up to n lines that is not already refused on a prefix; each sequence is rendered in several whitespace / line-ending styles and given to the tree's Keyring::new; verdict (three-valued), entries in order and look-ups are validated by TLC (Trace_Keyring); encoded public keys: every single-character corruption and wrong checksums must be unusable. Large keyrings in the tool's own layout (1..400 entries of random keys): every look-up by name and by key returns the entry written, keys not written are not found (krbig events).",
    note="Token alphabet of 17 line classes; names/keys from small value sets incl. 128/129-byte names and an interior tab (the defect D3, fixed)."),
  "C18": dict(engine="prims", design_ref="DESIGN.md 6 C18, 7",
-   text="Ffi.tla states the frame condition of the exported C function on an abstract caller memory (guards, inputs, exactly dkLen bytes, value = SCRYPT of the arguments in order) and enumerates 5040 call shapes; each (sampled in quick) is made through the working tree's cdylib with guard zones and compared with the library function; the laws the specification assumes of SCRYPT (deterministic, sensitive to every argument, prefix property) are checked on the same grid. The clause 'the in-repository scrypt equals RFC 7914' is NOT decidable by TLC: it is covered only by a supplementary differential comparison with OpenSSL's scrypt (hashlib) on a parameter grid, reported as such.",
-   note="Trusted base for the RFC clause: OpenSSL 3.0 scrypt. TLC contributes the enumeration of call shapes, the frame condition and the laws; it cannot evaluate Salsa20/8 (32-bit integers, no bit operations at scale).",
-   technique="TLA+ frame model + TLC-enumerated call shapes replayed through the C ABI; RFC equality by differential comparison (supplementary)"),
+   text="Scrypt7914.tla writes RFC 7914 out as a term over two primitives the tree exports - HMAC-SHA256 and the Salsa20/8 core (cfg-guarded hook): PBKDF2 with one iteration (RFC 8018), scryptBlockMix, scryptROMix with Integerify, and scrypt itself; TLC checks the shape of the definition for every case of a grid (N in {2,4,16}, r in {1,2,3}, p in {1,2}, dkLen, password and salt lengths) and prints the terms; the harness evaluates each with the tree's hmac_sha256 and Salsa20/8 and compares it with the tree's scrypt(): every layer of the RFC that is structure is decided that way, the numeric leaf that remains is the 16-word Salsa20/8 core (compared with the RFC's vector, supplementary). Ffi.tla states the frame condition of the exported C function on an abstract caller memory (guards, inputs, exactly dkLen bytes, value = SCRYPT of the arguments in order) and enumerates 5040 call shapes; each (sampled in quick) is made through the working tree's cdylib with guard zones and compared with the library function; the laws the specification assumes of SCRYPT (deterministic, sensitive to every argument, prefix property, the password is used as an HMAC key) are checked on the same grid. Supplementary: the library function against OpenSSL's scrypt (hashlib) on a parameter grid incl. the production parameters.",
+   note="Leaf assumption: the Salsa20/8 core (add-rotate-xor on 16 words) is compared with RFC 7914 section 8's vector and, through whole-function comparisons, with OpenSSL; TLC cannot evaluate it (32-bit integers, no bit operations at scale). Structural cases use N <= 16; that the code does not special-case larger N is covered by the OpenSSL grid only.",
+   technique="RFC 7914 as TLA+ terms over HMAC and the Salsa20/8 core, evaluated against the implementation; TLA+ frame model + TLC-enumerated call shapes replayed through the C ABI; leaf and large-N equality by differential comparison (supplementary)"),
  "C19": dict(engine="prims", design_ref="DESIGN.md 6 C19, 7",
    text="Rfc.tla holds (a) the case analysis of the axioms of the symbolic algebra (AEAD open under every kind of change x length classes; X25519 scalar x point classes incl. 14 low-order / non-canonical encodings) with the symbolic verdict, and (b) HMAC (RFC 2104) over SHA256 and HKDF (RFC 5869) over HMAC as terms; TLC enumerates the cases, the driver evaluates each on the exported functions (axioms) resp. evaluates the structural term with the exported inner primitive and compares with the exported outer one; the counter-nonce layout is compared through the hook for counters over the 64-bit range. Leaf primitives vs their RFCs are outside TLC; a supplementary comparison with hashlib and RFC 7748 / 8439 vectors is included and labelled as such. The DH case analysis includes RFC 7748's treatment of non-canonical inputs: DH(k, p+j) = DH(k, j) for j = 2..18 and masking of the top bit.",
    note="The leaves (SHA-256 compression, ChaCha20, Poly1305, X25519 ladder) are orion code; their RFC conformance is only sampled by the supplementary vectors.",
